@@ -342,6 +342,73 @@ def _c03_run(ns, cfg, pre, frames, cuts, times=None):
     return log, pending_table(w), w
 
 
+def _c03_run_mid(ns, cfg, pre, frames, i, k, steps, join):
+    """G3: frames[:i] one per chunk, then the first k bytes of frame i (k = 0: none;
+    join: in the chunk of frame i-1), then the application steps, then the rest of
+    frame i and the remaining frames one per chunk."""
+    w = World(ns, cfg)
+    w.observer = None
+    for st in pre:
+        w.run_step(st)
+    mark = w.seq
+    conn = w.live("A")
+    if conn is None:
+        return None, None, None
+
+    def up():
+        return not (conn.lost or conn.transport.phase != "open")
+
+    def feed(data):
+        if data and up():
+            conn.inb.extend(data)
+            w._deliver(conn, len(data))
+    head = frames[i][:k]
+    for j, fr in enumerate(frames[:i]):
+        feed(fr + head if (join and j == i - 1) else fr)
+    if head and not (join and i > 0):
+        feed(head)
+    for st in steps:
+        try:
+            w._run_step(st)
+        except Exception as e:
+            if type(e).__name__ != "StepSkipped":
+                raise
+    feed(frames[i][k:])
+    for fr in frames[i + 1:]:
+        feed(fr)
+    log = obs_log(w, with_time=False, from_seq=mark, with_dispatch=False, with_timers=False)
+    return log, pending_table(w), w
+
+
+def c03_mid_case(rng, cfg, pre, S, ver):
+    """Where the application acts in the middle of the broker stream, and what it does."""
+    prof = cfg["profile"]
+    vv = {"$": "v31"} if ver == 3 else {"$": "v311"}
+    if rng.random() < 0.3:
+        # a refused CONNACK leaves the protocol idle on an open transport; the application tries again
+        pre2 = [st for st in pre if st["op"] == "app.build" or st.get("m") in ("setWindowSize",)]
+        pre2.append({"op": "app.call", "addr": "A", "m": "connect", "a": ["seg"], "k": {"keepalive": 0, "version": vv}})
+        if prof & 2 and rng.random() < 0.5:
+            pre2.append({"op": "app.call", "addr": "A", "m": "publish", "k": {"topic": "e", "message": "early", "qos": rng.randint(0, 2)}})
+        S2 = [{"type": "CONNACK", "rc": rng.choice([1, 2, 3, 4, 5, 0x17]), "session_present": False},
+              {"type": "CONNACK", "rc": 0, "session_present": False}] + [p for p in S if p["type"] != "CONNACK"]
+        steps = [{"op": "app.call", "addr": "A", "m": "connect", "a": ["seg2"],
+                  "k": {"keepalive": 0, "version": vv, "cleanStart": rng.random() < 0.5}}]
+        return pre2, S2, 1, steps
+    if len(S) < 2:
+        return None
+    i = rng.randrange(1, len(S))
+    acts = [{"op": "app.call", "addr": "A", "m": "setWindowSize", "a": [rng.choice([1, 2, 16])]},
+            {"op": "app.call", "addr": "A", "m": "disconnect"}]
+    if prof & 2:
+        acts += [{"op": "app.call", "addr": "A", "m": "publish", "k": {"topic": "m", "message": "mid", "qos": q}} for q in (0, 1, 2)]
+    if prof & 1:
+        acts += [{"op": "app.call", "addr": "A", "m": "subscribe", "a": ["m/#", rng.randint(0, 2)]},
+                 {"op": "app.call", "addr": "A", "m": "unsubscribe", "a": ["m/x"]},
+                 {"op": "app.sethandler", "addr": "A", "which": "onPublish", "on": rng.random() < 0.5}]
+    return pre, S, i, [rng.choice(acts) for _ in range(rng.choice([1, 1, 2]))]
+
+
 def _compositions(n):
     """all 2^(n-1) compositions of n bytes as cut-offset tuples"""
     for r in range(n):
@@ -456,6 +523,35 @@ def c03_chunk(args):
                                                "frames": [f.hex() for f in frames], "cuts": pieces, "times": times, "mode": "timed",
                                                "seed": seed}})
                 break
+        # G3: the application acts while a packet is half received - the same as acting right
+        # before that packet arrives whole
+        mc = c03_mid_case(rng, cfg, pre, S, ver)
+        if mc is not None and not out["viol"]:
+            pre3, S3, mi, msteps = mc
+            frames3 = [rc.encode(p, ver) for p in S3]
+            ref3, reft3, _w = _c03_run_mid(ns, cfg, pre3, frames3, mi, 0, msteps, False)
+            if ref3 is not None:
+                ln = len(frames3[mi])
+                ks = sorted(set([1, 2, 3, ln - 1] + [rng.randrange(1, ln) for _ in range(3)]))
+                for k in [x for x in ks if 0 < x < ln]:
+                    for join in (False, True):
+                        log, tt, _w = _c03_run_mid(ns, cfg, pre3, frames3, mi, k, msteps, join)
+                        out["variants"] += 1
+                        out["kinds"]["straddle"] = out["kinds"].get("straddle", 0) + 1
+                        d = first_diff(ref3, log)
+                        if d is None and tt != reft3:
+                            d = ("timers", reft3[:4], tt[:4])
+                        if d is not None:
+                            out["viol"].append({"sig": "C03.G3:straddle:%s" % _dkind(d), "seed": seed, "kind": "c03",
+                                                "msg": "the application acts (%s) after the first %d bytes of packet %d (%s) instead of right before it: behaves differently: %r"
+                                                       % (",".join(st.get("m", st["op"]) for st in msteps), k, mi, S3[mi]["type"], d),
+                                                "nsteps": 1,
+                                                "replay": {"kind": "c03", "property": "C03", "signature": "C03.G3", "config": cfg,
+                                                           "prefix": pre3, "frames": [f.hex() for f in frames3], "mode": "mid",
+                                                           "i": mi, "k": k, "join": join, "steps": msteps, "seed": seed}})
+                            break
+                    if out["viol"]:
+                        break
         if len(out["samples"]) < 1 and total < 60:
             out["samples"].append({"seed": seed, "prefix": pre, "stream": [f.hex() for f in frames],
                                    "variants": len(variants)})
@@ -474,7 +570,10 @@ def _dkind(d):
 def c03_replay(ns, rp):
     frames = [bytes.fromhex(x) for x in rp["frames"]]
     bounds = list(itertools.accumulate(len(f) for f in frames))[:-1]
-    if rp["mode"] == "burst":
+    if rp["mode"] == "mid":
+        ref, reft, _ = _c03_run_mid(ns, rp["config"], rp["prefix"], frames, rp["i"], 0, rp["steps"], False)
+        log, tt, _ = _c03_run_mid(ns, rp["config"], rp["prefix"], frames, rp["i"], rp["k"], rp["steps"], rp["join"])
+    elif rp["mode"] == "burst":
         ref, reft, _ = _c03_run(ns, rp["config"], rp["prefix"], frames, bounds)
         log, tt, _ = _c03_run(ns, rp["config"], rp["prefix"], frames, tuple(rp["cuts"]))
     else:
